@@ -132,7 +132,11 @@ const recLoggerName = "lg"
 // one recording writer and returns the Write payloads.
 func emitRecord(rc recCase) (payloads []string, pan string) {
 	rec := &recorder{}
-	w := &plainW{"w", rec}
+	var w io.Writer = &plainW{"w", rec}
+	if rc.Prior {
+		// ... and the destination logs a side record itself before it looks at its bytes
+		w = &reentW{plainW{"w", rec}}
+	}
 	var l slog.Logger
 	if rc.Named {
 		l = slog.New(recLoggerName)
@@ -166,7 +170,17 @@ func emitRecord(rc recCase) (payloads []string, pan string) {
 		if rc.MMW > 0 {
 			nm = rc.MMW
 		}
+		// through the public setters where the value is one they document as accepted (tag width 0..5, message width >= 16)
 		slog.VerifSetWidths(nl, nm)
+		if rc.LOW >= 0 && rc.LOW <= 5 && rc.LOW > 0 {
+			slog.VerifSetWidths(3, nm)
+			slog.SetLevelOutputWidth(rc.LOW)
+		}
+		if rc.MMW >= 16 {
+			cur := slog.VerifLevelOutputWidth()
+			slog.VerifSetWidths(cur, 36)
+			slog.SetMessageMinimalWidth(rc.MMW)
+		}
 	}
 	defer func() {
 		slog.SetFlags(saveFlags)
